@@ -453,6 +453,42 @@ func hashCmd(args []string) error {
 			}
 		}
 	}
+	// (a'') different file sets whose (path, content) pairs concatenate to the same bytes must not share a digest
+	// (impl only): file n containing s++c  versus  file n++s containing c - and the same with the boundary moved
+	// between two files of one list
+	if *shard == 0 {
+		k := 0
+		for _, n := range []string{"a", "main", "x1"} {
+			for _, sfx := range []string{"b", ".go", "0"} {
+				for _, c := range []string{"", "payload\n"} {
+					k++
+					d := filepath.Join(root, fmt.Sprintf("amb%d", k))
+					os.MkdirAll(d, 0o755)
+					f1, f2 := filepath.Join(d, n), filepath.Join(d, n+sfx)
+					os.WriteFile(f1, []byte(sfx+c), 0o644)
+					d1 := ask(&w, bin, gmps[k%4], []string{f1}, 10*time.Second)
+					os.Remove(f1)
+					os.WriteFile(f2, []byte(c), 0o644)
+					d2 := ask(&w, bin, gmps[k%4], []string{f2}, 10*time.Second)
+					st.BySource["path/content boundary pairs(impl only)"]++
+					if strings.HasPrefix(d1, "D ") && d1 == d2 {
+						fail("C04", fmt.Sprintf("boundary-%d", k), fmt.Sprintf("file %q containing %q and file %q containing %q have the same digest %s", n, sfx+c, n+sfx, c, d1))
+					}
+					// content of one file moved into the next file of the list
+					g1, g2 := filepath.Join(d, "p"), filepath.Join(d, "q")
+					os.WriteFile(g1, []byte("AB"), 0o644)
+					os.WriteFile(g2, []byte(c), 0o644)
+					e1 := ask(&w, bin, gmps[k%4], []string{g1, g2}, 10*time.Second)
+					os.WriteFile(g1, []byte("A"), 0o644)
+					os.WriteFile(g2, []byte("B"+c), 0o644)
+					e2 := ask(&w, bin, gmps[k%4], []string{g1, g2}, 10*time.Second)
+					if strings.HasPrefix(e1, "D ") && e1 == e2 {
+						fail("C04", fmt.Sprintf("boundary-%d", k), "moving a byte from the end of one file to the start of another left the digest unchanged")
+					}
+				}
+			}
+		}
+	}
 	// (b) every position of an unreadable entry in lists of size <= 6
 	if *shard == 0 {
 		for n := 1; n <= 6; n++ {
